@@ -110,7 +110,13 @@ impl BuildOptimiser {
     pub fn build(&self) -> MCOptimiser {
         let kt_ratio = match (self.kt_ratio, self.kt_finish) {
             (Some(ratio), _) => 1. - ratio,
-            (None, Some(finish)) => f64::powf(finish / self.kt_start, 1. / self.steps as f64),
+            // The temperature is reduced once after each of the inner loops, so this is the ratio
+            // which reaches the finishing temperature once all the loops are complete.
+            (None, Some(finish)) => {
+                let inner_steps = u64::min(self.inner_steps, self.steps).max(1);
+                let loops = u64::max(self.steps / inner_steps, 1);
+                f64::powf(finish / self.kt_start, 1. / loops as f64)
+            }
             (None, None) => 0.1,
         };
         debug!("Setting kt_ratio to: {}", kt_ratio);
